@@ -1,6 +1,6 @@
 """C18 The IMUL_RCP reciprocal is exact for every divisor."""
 import astq
-from rules import decode
+from rules import decode, jit
 
 LEVEL = 'other'
 TECHNIQUE = 'control-dependence check of the no-op guard in every engine (decoder path enumeration) + definition check of the power-of-two predicate'
@@ -15,3 +15,5 @@ def run(ctx, R):
     F = astq.Facts(ctx, 'K0')
     R.saw(config='K0')
     decode.rule_rcp(ctx, R, F)
+    jit.rule_rcp(ctx, R, 'x86')
+    jit.rule_lw_sib(ctx, R, 'x86', F)
